@@ -281,9 +281,9 @@ theorem member_fail (m : Member) (ms : List Member) (fs : FS) (t : XTree)
         simp [xMkdirs, hfr] at hins
       | none =>
         obtain ⟨fs', hl', e, hadd⟩ := add_member_fail 4094 (fs := fs) (t := t)
-          (ino := { kind := .dir, name := joinSlash (init ++ [c]), link := m.link, children := some [], data := some [] })
+          (ino := { kind := .dir, name := joinSlash (init ++ [c]), link := m.link, children := some [], data := some [], md := m.imd })
           [] true h hrep hpt hg hu hfresh (Or.inl ⟨rfl, rfl⟩) (by simp) hA
-        have hprep : prepMember fs m = some { kind := .dir, name := joinSlash (init ++ [c]), link := m.link, children := some [], data := some [] } := by
+        have hprep : prepMember fs m = some { kind := .dir, name := joinSlash (init ++ [c]), link := m.link, children := some [], data := some [], md := m.imd } := by
           simp [prepMember, hk, hnn, hfresh]
         refine ⟨e, ?_⟩
         rw [addMembers, hprep]
@@ -291,7 +291,7 @@ theorem member_fail (m : Member) (ms : List Member) (fs : FS) (t : XTree)
         rw [addFuel_eq, hadd]
   · -- a regular file
     simp only [hk] at hins
-    have hprep : prepMember fs m = some { kind := .reg, name := n, link := m.link, children := none, data := some m.data } := by
+    have hprep : prepMember fs m = some { kind := .reg, name := n, link := m.link, children := none, data := some m.data, md := m.imd } := by
       simp [prepMember, hk, hnn]
     by_cases hnd : n = dotP
     · subst hnd
@@ -330,7 +330,7 @@ theorem member_fail (m : Member) (ms : List Member) (fs : FS) (t : XTree)
           simp [FS.node?, hget?] at hins
         | none =>
           obtain ⟨fs', hl', e, hadd⟩ := add_member_fail 4094 (fs := fs) (t := t)
-            (ino := { kind := .reg, name := joinSlash (init ++ [c]), link := m.link, children := none, data := some m.data })
+            (ino := { kind := .reg, name := joinSlash (init ++ [c]), link := m.link, children := none, data := some m.data, md := m.imd })
             [] true h hrep hpt hg hu hget? (Or.inr ⟨by simp, rfl, fun _ => ⟨m.data, rfl⟩⟩) (by simp) hA
           refine ⟨e, ?_⟩
           rw [addMembers, hprep]
